@@ -648,3 +648,232 @@ func init() {
 	registry["C49"].Configs = osConfigs
 	registry["C34"].Configs = osConfigs
 }
+
+// ---------------------------------------------------------------------------------------
+// C31: convergence after simultaneous initiation needs the responder-side duplicate test to look at EVERY tunnel held for the
+// peer: when the node's own initiated tunnel has become primary, a late duplicate of the peer's first message must still be
+// recognised (otherwise a third tunnel is created, made primary and the peer's index repointed). This is the same structural
+// rule C10 checks for replays; it is evaluated here under C31's own id. (Seed C31: the scan was reduced to the primary.)
+func init() {
+	p := registry["C31"]
+	orig, origCan := p.Run, p.Canaries
+	p.Run = func(c *Ctx) {
+		orig(c)
+		c.Rule("C31.duplicate-scan", "K1 for-all (shared with C10.check): CheckAndComplete inserts a tunnel only if the first-message bytes differ from those stored on every tunnel held for the peer's address, not only the primary, and passes the staleness and index-collision tests", 4)
+		sub := NewCtx("C10", c.Tier, c.Seed)
+		sub.P = c.P
+		runC10(sub)
+		for _, o := range sub.Obs {
+			if o.Rule == "C10.check" && o.Construct != "floor" {
+				c.add("C31.duplicate-scan", o.Construct, o.Verdict, o.Pos, o.Detail, o.Path)
+			}
+		}
+		for f := range sub.Funcs {
+			c.Funcs[f] = true
+		}
+	}
+	p.Canaries = func(c *Ctx) []Canary {
+		return append(origCan(c), Canary{Name: "duplicate-scan-only-primary", File: "handshake_manager.go", Old: "\t\tfor _, testHostInfo := range hm.mainHostMap.unlockedGetHostList(hostinfo.vpnAddrs[0]) {\n\t\t\tif bytes.Equal(hostinfo.HandshakePacket[handshakePacket], testHostInfo.HandshakePacket[handshakePacket]) {\n\t\t\t\treturn testHostInfo, ErrAlreadySeen\n\t\t\t}\n\t\t}\n", New: "\t\tif bytes.Equal(hostinfo.HandshakePacket[handshakePacket], existingHostInfo.HandshakePacket[handshakePacket]) {\n\t\t\treturn existingHostInfo, ErrAlreadySeen\n\t\t}\n", Rule: "C31.duplicate-scan"})
+	}
+}
+
+// ---------------------------------------------------------------------------------------
+// C19: every reload that installs a new rule set must give it a version different from the one the tracked flows carry,
+// whatever the reason for the reload (what a rule allows also depends on unhashed inputs: default_local_cidr_any, the
+// certificate's networks). (Seed C19: the version was bumped only when the textual rule hash changed.)
+func init() {
+	p := registry["C19"]
+	orig, origCan := p.Run, p.Canaries
+	p.Run = func(c *Ctx) { orig(c); c19VersionMoves(c) }
+	p.Canaries = func(c *Ctx) []Canary {
+		return append(origCan(c), Canary{Name: "version-bumped-only-when-rule-hash-changes", File: "interface.go", Old: "\tfw.rulesVersion = oldFw.rulesVersion + 1\n", New: "\tfw.rulesVersion = oldFw.rulesVersion\n\tif fw.GetRuleHash() != oldFw.GetRuleHash() {\n\t\tfw.rulesVersion = oldFw.rulesVersion + 1\n\t}\n", Rule: "C19.version-moves"})
+	}
+}
+
+func c19VersionMoves(c *Ctx) {
+	c.Rule("C19.version-moves", "K11 on all paths: in reloadFirewall every value stored into the new firewall's rulesVersion is the old firewall's rulesVersion plus a positive constant, and the install of the new firewall is reached only after such a store", 2)
+	fn := c.Func(Ref{"", "Interface", "reloadFirewall"})
+	fVer := c.Field("", "Firewall", "rulesVersion")
+	fFw := c.Field("", "Interface", "firewall")
+	if fn == nil || fVer == nil || fFw == nil {
+		return
+	}
+	isBump := func(in ssa.Instruction) bool {
+		st, ok := in.(*ssa.Store)
+		if !ok {
+			return false
+		}
+		fa, ok := st.Addr.(*ssa.FieldAddr)
+		if !ok || fieldOfAddr(fa) != fVer {
+			return false
+		}
+		bo, ok := stripValue(st.Val).(*ssa.BinOp)
+		if !ok || bo.Op != token.ADD {
+			return false
+		}
+		for _, pair := range [][2]ssa.Value{{bo.X, bo.Y}, {bo.Y, bo.X}} {
+			if k, ok := constUint(pair[1]); ok && k >= 1 && loadsField(pair[0], fVer) {
+				// read from a different firewall value than the one written
+				if lf, ok := stripValue(pair[0]).(*ssa.UnOp); ok {
+					if src, ok := lf.X.(*ssa.FieldAddr); ok && src.X != fa.X {
+						return true
+					}
+				}
+			}
+		}
+		return false
+	}
+	n := 0
+	eachInstr(fn, func(in ssa.Instruction) {
+		st, ok := in.(*ssa.Store)
+		if !ok {
+			return
+		}
+		fa, ok := st.Addr.(*ssa.FieldAddr)
+		if !ok || fieldOfAddr(fa) != fVer {
+			return
+		}
+		n++
+		c.Check(isBump(in), "C19.version-moves", fmt.Sprintf("reloadFirewall:rulesVersion-store#%d", n), c.instrPos(in), "old version + constant", "the new firewall's rulesVersion is stored as something other than the old version plus one: a reload can install changed rules under the version the tracked flows already carry, so they are never revalidated")
+	})
+	k := 0
+	eachInstr(fn, func(in ssa.Instruction) {
+		st, ok := in.(*ssa.Store)
+		if !ok {
+			return
+		}
+		fa, ok := st.Addr.(*ssa.FieldAddr)
+		if !ok || fieldOfAddr(fa) != fFw {
+			return
+		}
+		k++
+		av, path := c.avoidsCut(fn, nil, in, isBump)
+		cons := fmt.Sprintf("reloadFirewall:install#%d:after-bump", k)
+		if av {
+			c.Bad("C19.version-moves", cons, c.instrPos(in), "a new firewall is installed on a path that did not give it the old version plus one", path...)
+		} else {
+			c.OK("C19.version-moves", cons, "every path to the install passes the version bump")
+		}
+	})
+}
+
+// ---------------------------------------------------------------------------------------
+// C21: the one's-complement sum must have all carries folded before it is truncated to 16 bits. (Seed C21: the fold loop
+// `for csum > 0xffff` was replaced by a single fold, whose result can itself exceed 16 bits: a second carry is dropped and the
+// reply carries a checksum that is off by one for a few payloads in 65536.)
+func init() {
+	p := registry["C21"]
+	orig, origCan := p.Run, p.Canaries
+	p.Run = func(c *Ctx) { orig(c); c21FoldBeforeTruncate(c) }
+	p.Canaries = func(c *Ctx) []Canary {
+		return append(origCan(c), Canary{Name: "checksum-single-fold", File: "iputil/packet.go", Old: "\tfor csum > 0xffff {\n\t\tcsum = (csum >> 16) + (csum & 0xffff)\n\t}\n\treturn ^uint16(csum)", New: "\tcsum = (csum >> 16) + (csum & 0xffff)\n\treturn ^uint16(csum)", Rule: "C21.checksum-fold"})
+	}
+}
+
+func c21FoldBeforeTruncate(c *Ctx) {
+	c.Rule("C21.checksum-fold", "K13 truncation obligation: in tcpipChecksum the 32-bit sum is converted to 16 bits only where it is known to fit (dominated by the exit of a `sum > 0xffff` fold loop, or masked)", 1)
+	fn := c.Func(Ref{"iputil", "", "tcpipChecksum"})
+	if fn == nil {
+		return
+	}
+	n := 0
+	eachInstr(fn, func(in ssa.Instruction) {
+		cv, ok := in.(*ssa.Convert)
+		if !ok {
+			return
+		}
+		to, ok1 := cv.Type().Underlying().(*types.Basic)
+		from, ok2 := cv.X.Type().Underlying().(*types.Basic)
+		if !ok1 || !ok2 || to.Kind() != types.Uint16 || from.Kind() != types.Uint32 {
+			return
+		}
+		n++
+		v := cv.X
+		fits := false
+		// masked: v = x & 0xffff
+		if bo, ok := v.(*ssa.BinOp); ok && bo.Op == token.AND {
+			if k, ok := constUint(bo.Y); ok && k <= 0xffff {
+				fits = true
+			}
+		}
+		// folded twice: fold(y) = (y>>16) + (y&0xffff) <= 0x1fffe for any 32-bit y, and fold of that is <= 0xffff
+		foldOf := func(x ssa.Value) ssa.Value {
+			ad, ok := x.(*ssa.BinOp)
+			if !ok || ad.Op != token.ADD {
+				return nil
+			}
+			for _, pr := range [][2]ssa.Value{{ad.X, ad.Y}, {ad.Y, ad.X}} {
+				sh, ok1 := pr[0].(*ssa.BinOp)
+				an, ok2 := pr[1].(*ssa.BinOp)
+				if !ok1 || !ok2 || sh.Op != token.SHR || an.Op != token.AND || sh.X != an.X {
+					continue
+				}
+				k1, a := constUint(sh.Y)
+				k2, b := constUint(an.Y)
+				if a && b && k1 == 16 && k2 == 0xffff {
+					return sh.X
+				}
+			}
+			return nil
+		}
+		if y := foldOf(v); y != nil && foldOf(y) != nil {
+			fits = true
+		}
+		// dominated by the side of a comparison on v that establishes v <= 0xffff
+		for _, b := range fn.Blocks {
+			if fits || len(b.Instrs) == 0 {
+				break
+			}
+			ifi, ok := b.Instrs[len(b.Instrs)-1].(*ssa.If)
+			if !ok {
+				continue
+			}
+			cd := normCond(ifi.Cond)
+			if cd.Kind != CondCmp {
+				continue
+			}
+			bo := cd.Base.(*ssa.BinOp)
+			op := bo.Op
+			var k uint64
+			var isK bool
+			switch {
+			case bo.X == v:
+				k, isK = constUint(bo.Y)
+			case bo.Y == v:
+				k, isK = constUint(bo.X)
+				op = swapOp(op)
+			}
+			if !isK {
+				continue
+			}
+			if cd.Neg {
+				op = negOp(op)
+			}
+			// which successor has v <= 0xffff ?
+			succ := -1
+			switch {
+			case op == token.GTR && k <= 0xffff, op == token.GEQ && k <= 0x10000:
+				succ = 1
+			case op == token.LEQ && k <= 0xffff, op == token.LSS && k <= 0x10000:
+				succ = 0
+			}
+			if succ < 0 {
+				continue
+			}
+			s := b.Succs[succ]
+			if s == cv.Block() || s.Dominates(cv.Block()) {
+				// the edge must be the only way into s from b's side: s may have other predecessors only if they are dominated by s
+				fits = true
+				for _, p := range s.Preds {
+					if p != b && !s.Dominates(p) {
+						fits = false
+					}
+				}
+			}
+		}
+		c.Check(fits, "C21.checksum-fold", fmt.Sprintf("tcpipChecksum:truncate#%d", n), c.instrPos(cv), "the sum is known to fit 16 bits where it is truncated", "the 32-bit one's-complement sum is truncated to 16 bits without all carries having been folded (no dominating `sum <= 0xffff`): a carry out of the fold is dropped and the checksum is wrong for some payloads")
+	})
+	if n == 0 {
+		c.Unknown("C21.checksum-fold", "tcpipChecksum:truncate", "no uint32 -> uint16 truncation found")
+	}
+}
